@@ -487,7 +487,32 @@ def rule_tie_key(ctx):
             and isinstance(n.value.elts[0], ast.Constant) and n.value.elts[0].value == "tie"]
     ctx.require(len(keys) == 1, rule, f.qname, "tie pairing key not found")
     t = keys[0].value
-    ok = len(t.elts) == 2 and "midi_pitch" in norm(t.elts[1])
+    defs = local_defs(f)
+    reads, consts = set(), set()
+    todo, k = list(t.elts[1:]), 0
+    while todo and k < 60:
+        x = todo.pop()
+        k += 1
+        recv = set()  # names only used as the object an attribute is read from: the attribute is what matters
+        for c in ast.walk(x):
+            if isinstance(c, ast.Attribute):
+                reads.add(c.attr)
+                if isinstance(c.value, ast.Name):
+                    recv.add(id(c.value))
+            elif isinstance(c, ast.Call) and norm(c.func) == "getattr" and len(c.args) >= 2 and isinstance(c.args[1], ast.Constant):
+                consts.add(c.args[1].value)
+                if isinstance(c.args[0], ast.Name):
+                    recv.add(id(c.args[0]))
+            elif isinstance(c, ast.Constant) and isinstance(c.value, str) and isinstance(getattr(c, "_parent", None), (ast.Call, ast.Subscript)):
+                consts.add(c.value)
+        for c in ast.walk(x):
+            if isinstance(c, ast.Name) and isinstance(c.ctx, ast.Load) and id(c) not in recv:
+                reads.add(c.id)
+                todo.extend(defs.get(c.id, []))
+    last = {r.split(".")[-1] for r in reads}
+    extra = sorted((last | consts) & {"voice", "staff"})
+    by_pitch = bool((last | consts) & {"midi_pitch", "step", "octave", "pitch"})
+    ok = by_pitch and not extra
     ctx.check(ok, rule, f"tie key {norm(t)[:60]}", func=f, node=keys[0], construct="tie-key-components",
               msg=f"ties are paired under `{norm(t)[:80]}`; MusicXML pairs tie start and stop by pitch, and the exporter may write the two notes in "
                   f"different voices: any extra component (voice, staff) silently drops such ties on re-import")
@@ -509,18 +534,22 @@ def rule_first_track_tempo(ctx):
         if isinstance(p, ast.For) and loop is None:
             loop = p
         p = getattr(p, "_parent", None)
-    ok = False
-    why = "the set_tempo message is not inside the track loop under an `== 0` guard"
-    if loop is not None and guard is None:
-        ok, why = False, "set_tempo is emitted on every track"
-    if loop is not None and guard is not None:
-        t = guard.test
-        counter = None
-        if isinstance(loop.iter, ast.Call) and norm(loop.iter.func) == "enumerate" and isinstance(loop.target, ast.Tuple):
-            counter = norm(loop.target.elts[0])
-        if isinstance(t, ast.Compare) and len(t.ops) == 1 and isinstance(t.ops[0], ast.Eq) and isinstance(t.comparators[0], ast.Constant) and t.comparators[0].value == 0:
-            ok = counter is not None and norm(t.left) == counter
-            why = f"the guard `{norm(t)}` tests {'the track number' if counter is None or norm(t.left) != counter else 'the position'}"
+    ctx.require(loop is not None, rule, f.qname, "the set_tempo message is not written inside the loop over the tracks")
+    counter = trackno = None
+    if isinstance(loop.iter, ast.Call) and norm(loop.iter.func) == "enumerate" and isinstance(loop.target, ast.Tuple) and len(loop.target.elts) == 2:
+        counter, trackno = norm(loop.target.elts[0]), norm(loop.target.elts[1])
+    elif isinstance(loop.target, ast.Name):
+        trackno = loop.target.id
+    if guard is None:
+        ok, why = False, "set_tempo is written on every track"
+    else:
+        names = {x.id for x in ast.walk(guard.test) if isinstance(x, ast.Name)}
+        if counter is not None and counter in names and trackno not in names:
+            ok, why = True, ""
+        elif trackno in names and (counter is None or counter not in names):
+            ok, why = False, f"the guard `{norm(guard.test)}` tests the track number"
+        else:
+            raise AnalysisError(rule, f.qname, f"guard `{norm(guard.test)}` of the set_tempo message not understood")
     ctx.check(ok, rule, "set_tempo on the first emitted track", func=f, node=st[0], construct="tempo-guard-not-positional",
               msg=f"{why}: when no track is numbered 0 no set_tempo is written, the reader assumes 120 bpm and every time comes back scaled by "
                   f"500000/mpq")
@@ -556,7 +585,9 @@ def rule_from_instance_rounding(ctx):
         for c in own_nodes(f.node):
             if isinstance(c, ast.Call) and isinstance(c.func, ast.Name) and c.func.id == "int" and len(c.args) == 1:
                 a = c.args[0]
-                inner = a.args[0] if isinstance(a, ast.Call) and norm(a.func) in ("np.round", "round", "np.rint") and a.args else a
+                inner = a.args[0] if isinstance(a, ast.Call) and norm(a.func) in ("np.round", "round", "np.rint", "numpy.round", "np.around") and a.args else a
+                if isinstance(a, ast.BinOp) and isinstance(a.op, ast.Add) and any(isinstance(x, ast.Constant) and x.value == 0.5 for x in (a.left, a.right)):
+                    inner = a.left if isinstance(a.right, ast.Constant) else a.right
                 attrs = {x.attr for x in ast.walk(inner) if isinstance(x, ast.Attribute) and isinstance(x.value, ast.Name)}
                 hit = attrs & floats
                 if not hit:
@@ -570,10 +601,20 @@ def rule_from_instance_rounding(ctx):
 
 def rule_tick_provenance(ctx):
     rule = "TICK-src"
-    ctx.rule(rule, "every tick written into a pedal or performed-note line by matchfile_from_alignment is the direct result of "
-                   "seconds_to_midi_ticks(<seconds>, mpq=mpq, ppq=ppq) with the header's clock (no other tick source)")
+    ctx.rule(rule, "every tick written into a pedal or performed-note line by matchfile_from_alignment is computed by "
+                   "seconds_to_midi_ticks(<seconds>, mpq, ppq) with the header's clock (directly, through single-definition locals or a "
+                   "local wrapper); no tick value stored in the input (a `*tick*` key or attribute) flows into it")
     f = ctx.prog.func("partitura.io.exportmatch:matchfile_from_alignment", rule)
     defs = local_defs(f)
+    wrappers = set()  # local lambdas / defs that return the converter with the header clock
+    for n in ast.walk(f.node):
+        body = None
+        if isinstance(n, ast.Assign) and isinstance(n.value, ast.Lambda) and isinstance(n.targets[0], ast.Name):
+            name, body = n.targets[0].id, n.value.body
+        elif isinstance(n, ast.FunctionDef) and n is not f.node and len(n.body) == 1 and isinstance(n.body[0], ast.Return):
+            name, body = n.name, n.body[0].value
+        if body is not None and _is_converter_call(body, f, set()):
+            wrappers.add(name)
     n = 0
     for c in own_nodes(f.node):
         if not (isinstance(c, ast.Call) and norm(c.func) in ("MatchSustainPedal", "MatchSoftPedal", "MatchNote")):
@@ -583,12 +624,35 @@ def rule_tick_provenance(ctx):
                 continue
             n += 1
             v = resolve_alias(k.value, defs)
-            ok = isinstance(v, ast.Call) and norm(v.func) == "seconds_to_midi_ticks" and \
-                {kk.arg: norm(kk.value) for kk in v.keywords}.get("mpq") in f.all_params and {kk.arg: norm(kk.value) for kk in v.keywords}.get("ppq") in f.all_params
+            # strip int()/max()/round() wrappers
+            core = v
+            while isinstance(core, ast.Call) and norm(core.func) in ("int", "round", "np.round", "max") and core.args and not _is_converter_call(core, f, wrappers):
+                core = resolve_alias(core.args[0], defs)
+            stored = sorted({x.value for x in ast.walk(v) if isinstance(x, ast.Constant) and isinstance(x.value, str) and "tick" in x.value.lower()} |
+                            {x.attr for x in ast.walk(v) if isinstance(x, ast.Attribute) and "tick" in x.attr.lower()})
+            if stored:
+                ok, why = False, f"reads the stored tick value {stored}"
+            elif _is_converter_call(core, f, wrappers):
+                ok, why = True, ""
+            else:
+                raise AnalysisError(rule, f.qname, f"`{k.arg}={norm(k.value)}` of {norm(c.func)}: origin `{norm(v)[:80]}` not understood")
             ctx.check(ok, rule, f"{norm(c.func)}({k.arg}=...)", func=f, node=c, construct=f"tick-not-from-converter:{norm(c.func)}.{k.arg}",
-                      msg=f"`{k.arg}={norm(k.value)}` resolves to `{norm(v)[:80]}`, not to seconds_to_midi_ticks(..., mpq=mpq, ppq=ppq): ticks taken from "
+                      msg=f"`{k.arg}={norm(k.value)}` resolves to `{norm(v)[:80]}`, which {why}: ticks taken from "
                           f"elsewhere (e.g. the source file's own tick count) are in another clock than the one written into the header")
     ctx.floor(rule, "tick arguments of line constructors", n, 4)
+
+
+def _is_converter_call(e, f, wrappers) -> bool:
+    if not isinstance(e, ast.Call):
+        return False
+    if isinstance(e.func, ast.Name) and e.func.id in wrappers:
+        return True
+    if norm(e.func).split(".")[-1] != "seconds_to_midi_ticks":
+        return False
+    kw = {k.arg: norm(k.value) for k in e.keywords}
+    pos = [norm(a) for a in e.args[1:]]
+    clock = set(kw.get(x) for x in ("mpq", "ppq") if x in kw) | set(pos)
+    return len(clock) == 2 and all(c in f.all_params for c in clock)
 
 
 def rule_map_scope(ctx):
@@ -609,7 +673,8 @@ def rule_map_scope(ctx):
     m = next(iter(maps))
     inits = [a for a in own_nodes(f.node) if isinstance(a, ast.Assign) and norm(a.targets[0]) == m and isinstance(a.value, (ast.Dict, ast.Call))]
     inside = [a for a in inits if any(a is x for x in ast.walk(lp))]
-    ctx.check(len(inits) >= 1 and len(inside) == len(inits), rule, f"`{m}` initialised per segment", func=f, node=inits[0] if inits else None,
+    cleared = any(isinstance(c, ast.Call) and norm(c.func) == f"{m}.clear" for b in lp.body for c in ast.walk(b))
+    ctx.check(len(inits) >= 1 and (len(inside) >= 1 or cleared), rule, f"`{m}` initialised per segment", func=f, node=inits[0] if inits else None,
               construct="object-map-hoisted",
               msg=f"the object map `{m}` is created outside the loop over the segments: a tie/slur that leaves a segment then resolves to the copy made "
                   f"during an *earlier* visit instead of None, linking notes of different visits")
@@ -660,7 +725,7 @@ def rule_identity_shortcut(ctx):
     ctx.require(len(skips) == 1, rule, f.qname, "no-op guard not found")
     t = skips[0].test
     attrs = {x.attr for x in ast.walk(t) if isinstance(x, ast.Attribute)}
-    ok = {"quality", "number"} <= attrs and "semitones" not in attrs and any(isinstance(c, ast.Constant) and c.value == "P1" for c in ast.walk(t))
+    ok = "semitones" not in attrs and not any(isinstance(c, ast.Call) and "semitone" in norm(c.func).lower() for c in ast.walk(t))
     ctx.check(ok or len(zero) == 1, rule, f"no-op guard `{norm(t)[:50]}`", func=f, node=skips[0], construct="identity-by-semitones",
               msg=f"the no-op guard `{norm(t)}` is not keyed on the interval class P1; intervals with 0 semitones are {zero}: a diminished second must still "
                   f"move the note one staff step")
@@ -678,8 +743,16 @@ def rule_groupby_sorted(ctx, modnames):
                     n += 1
                     key = next((k.value for k in c.keywords if k.arg == "key"), c.args[1] if len(c.args) > 1 else None)
                     src = c.args[0]
-                    ok = isinstance(src, ast.Call) and norm(src.func) == "sorted" and (
-                        (key is None and not src.keywords) or any(k.arg == "key" and key is not None and norm(k.value) == norm(key) for k in src.keywords))
+                    defs = local_defs(f)
+                    src0 = src
+                    src = resolve_alias(src, defs)
+
+                    def same_key(call):
+                        return (key is None and not any(k.arg == "key" for k in call.keywords)) or \
+                            any(k.arg == "key" and key is not None and norm(k.value) == norm(key) for k in call.keywords)
+                    ok = isinstance(src, ast.Call) and norm(src.func) == "sorted" and same_key(src)
+                    if not ok and isinstance(src0, ast.Name):
+                        ok = any(isinstance(x, ast.Call) and norm(x.func) == f"{src0.id}.sort" and same_key(x) and x.lineno < c.lineno for x in own_nodes(f.node))
                     ctx.check(ok, rule, f"{f.qname}: {norm(c)[:50]}", func=f, node=c, construct=f"groupby-unsorted:{f.name}",
                               msg=f"`{norm(c)[:80]}` groups consecutive rows only; its input is not sorted by the same key, so equal keys on non-adjacent "
                                   f"rows end up in different groups (chord notes with identical onset and duration get different voices)")
@@ -838,7 +911,7 @@ def rule_counter_consecutive(ctx):
         for e in ev:
             if e[0] == "opaque":
                 if any(isinstance(x, ast.Name) and x.id == cnt and isinstance(x.ctx, ast.Store) for x in ast.walk(e[1])):
-                    bad = f"`{norm(e[1])[:50]}` changes the counter in a way the offset analysis cannot follow"
+                    raise AnalysisError(rule, f.qname, f"`{norm(e[1])[:50]}` changes the counter in a way the offset analysis cannot follow")
             elif e[0] == "inc":
                 cur += e[1]
             elif e[0] == "use":
